@@ -234,13 +234,27 @@ pub fn check(prog: &Prog, kind: Kind, plan: &Plan, refrun: &RefRun, refnp: &RefR
             }
             _ => {
                 missing_in_group.insert(&e.tag, true);
-                if !sum.cut_short {
-                    if ref_failed && !kind.is_async() {
-                        // sequential / thread-spawning try macros run the failing step to its end
-                        out.push(v("failing_step_incomplete", evk, format!("event {}#{} of the failing step did not happen", e.ev, e.occ)));
-                    } else {
-                        out.push(v("events_missing", evk, format!("event {}#{} of the reference run did not happen", e.ev, e.occ)));
-                    }
+                // Is this event a branch event of a step that failed (of the invocation at some level of its tag)?
+                // Only those may legitimately be cut off (async kinds: try_join! drops the siblings of the failed branch);
+                // events of earlier steps, and everything the caller evaluates before the branches of the failing step start
+                // (block captures, the handler expression), must have happened in every run.
+                let in_failing_step = e.tag.iter().any(|t| {
+                    t.branch != CALLER && refnp.fail_notes.iter().any(|n| n.0 == t.inv && n.1 == t.inst && n.2 == t.step)
+                });
+                let in_async_failing_step = e.tag.iter().any(|t| {
+                    t.branch != CALLER
+                        && prog.inv_kind(t.inv, kind).is_async()
+                        && refnp.fail_notes.iter().any(|n| n.0 == t.inv && n.1 == t.inst && n.2 == t.step)
+                });
+                if expect_panic || obs.outcome == Outcome::Cancelled {
+                    // cut short by a panic / cancellation: prefix-closure per segment is checked above
+                } else if in_async_failing_step {
+                    // legitimately cancelled sibling
+                } else if in_failing_step {
+                    // sequential / thread-spawning try macros run the failing step to its end
+                    out.push(v("failing_step_incomplete", evk, format!("event {}#{} of the failing step did not happen", e.ev, e.occ)));
+                } else {
+                    out.push(v("events_missing", evk, format!("event {}#{} of the reference run did not happen", e.ev, e.occ)));
                 }
             }
         }
@@ -337,15 +351,25 @@ fn order_checks(
     let mut seg_units: BTreeMap<Vec<u32>, Vec<Unit>> = BTreeMap::new();
     // task-spawning try invocations in which a step failed: the siblings of the failed branch finish
     // detached, so their events are not ordered against anything outside that invocation
-    let detached: Vec<(u32, u32)> = refnp
-        .fail_notes
-        .iter()
-        .filter(|n| {
-            let k = prog.inv_kind(n.0, kind);
-            k.is_async() && k.is_spawn()
-        })
-        .map(|n| (n.0, n.1))
-        .collect();
+    // (a) the instance itself failed and spawns tasks, or (b) a task-spawning instance (try or not) sits somewhere inside
+    // a failed async try instance: try_join! drops the futures of the failed step's siblings, which cancels the nested
+    // macro's future but not the tasks it had already spawned
+    let failed_async: Vec<(u32, u32)> = refnp.fail_notes.iter().filter(|n| prog.inv_kind(n.0, kind).is_async()).map(|n| (n.0, n.1)).collect();
+    let detached_level = |tag: &Vec<TagEntry>| -> Option<usize> {
+        let mut best: Option<usize> = None;
+        let mut inside_failed = false;
+        for (j, t) in tag.iter().enumerate() {
+            let k = prog.inv_kind(t.inv, kind);
+            let failed_here = failed_async.contains(&(t.inv, t.inst));
+            if k.is_async() && k.is_spawn() && (failed_here || inside_failed) {
+                best = Some(j);
+            }
+            if failed_here {
+                inside_failed = true;
+            }
+        }
+        best
+    };
 
     for e in refnp.events.iter() {
         let oe = match oev.get(&(e.ev, e.occ)) {
@@ -355,7 +379,7 @@ fn order_checks(
         // a gate created inside a block capture starts, as far as its branch is concerned, at its first poll
         let start = if e.created_in_capture { oe.arrive_seq.or(oe.pass_seq).unwrap_or(oe.first_seq) } else { oe.first_seq };
         let oe = &ObsEv { first_seq: start, arrive_seq: oe.arrive_seq, pass_seq: oe.pass_seq, dg: oe.dg, ent: oe.ent };
-        let first_detached_level = e.tag.iter().rposition(|t| detached.contains(&(t.inv, t.inst)));
+        let first_detached_level = detached_level(&e.tag);
         let mut key: Vec<u32> = Vec::new();
         for (l, t) in e.tag.iter().enumerate() {
             key.push(t.inv);
